@@ -97,7 +97,7 @@ def _real_data(model, pattern):
     gas = [min(max(abs(float(model.get(f"gas{k}") or (50.0 + 10 * k))), 1.0), 1e4) for k in range(n)]
     pr = [min(max(float(model.get(f"pr{k}") or (3000.0 - 100 * k)), 500.0), 4000.0) for k in range(n)]
     pr = [np.nan if pattern[k] == "nan" else pr[k] for k in range(n)]
-    gas = [0.0 if pattern[k] == "zero" else abs(gas[k]) + 1e-3 for k in range(n)]
+    gas = [0.0 if pattern[k] == "zero" else np.nan if pattern[k] == "gasnan" else abs(gas[k]) + 1e-3 for k in range(n)]
     return pd.DataFrame({"Days": np.arange(n) + 1, "Gas": gas, "Pressure": pr, "Extra": np.arange(n)})
 
 
@@ -116,8 +116,12 @@ def replay_fit(model, pattern=("ok", "ok", "ok", "ok"), filt=True, window=None):
     imax, inmax = 5500.0, 1e5
     with warnings.catch_warnings():
         warnings.simplefilter("ignore")
-        res = fit_production_pressure(data, pvt, 4000.0, filter_window_size=window, pressure_imax=imax, inplace_max=inmax,
-                                      filter_zero_prod_days=filt, n_iter=3)
+        try:
+            res = fit_production_pressure(data, pvt, 4000.0, filter_window_size=window, pressure_imax=imax, inplace_max=inmax,
+                                          filter_zero_prod_days=filt, n_iter=3)
+        except Exception as ex:  # noqa: BLE001
+            return True, {"what": f"fit_production_pressure raised {ex!r} on {len(keep)} usable rows of {len(data)} "
+                                  f"(rows without production or pressure must be excluded)", "inputs": {"pattern": list(pattern)}}
     p = res.params
     n = len(keep)
     cum = np.cumsum(keep["Gas"].to_numpy())
@@ -210,7 +214,7 @@ def job_fit(job, pattern, filt, window):
     pattern = tuple(pattern) + ("sure",) * FILLER      # enough surely-productive days for tau's range [30, 2(n-1)] to be non-empty
     n = len(pattern)
     job.bound(production_rows=n, rows_with_uncertain_production=len(short))
-    gas = [Q(0) if pattern[k] == "zero" else fresh(f"gas{k}", pos=(pattern[k] == "sure")) for k in range(n)]
+    gas = [Q(0) if pattern[k] == "zero" else pd_shim.NA if pattern[k] == "gasnan" else fresh(f"gas{k}", pos=(pattern[k] == "sure")) for k in range(n)]
     prs = [pd_shim.NA if pattern[k] == "nan" else fresh(f"pr{k}", pos=True) for k in range(n)]
     days = [Q(k + 1) for k in range(n)]
     frame = pd_shim.SymFrame()
@@ -230,8 +234,13 @@ def job_fit(job, pattern, filt, window):
     res = paths(job, run, [], catch=(Exception,), max_paths=64)
     for k, pr in enumerate(res):
         if pr.exc is not None:
-            # too few usable rows etc.: only acceptable when fewer than two rows survive
-            job.record(f"{tag}/path{k} raises {type(pr.exc).__name__}", "info", 0.0, note=str(pr.exc)[:80])
+            # at least FILLER (>= 2) surely productive rows with a pressure survive the filter on every path, so the fit
+            # must be set up: an exception here means a row that should have been excluded got through (or the set-up broke)
+            if filt or not any(q in ("nan", "gasnan") for q in pattern):
+                job.prove(f"{tag}/raises {type(pr.exc).__name__} although {FILLER} usable rows exist[path{k}]", pr.pc, bound=f"{n} rows", replay=rp,
+                          note=str(pr.exc)[:80])
+            else:
+                job.record(f"{tag}/path{k} raises {type(pr.exc).__name__}", "info", 0.0, note=str(pr.exc)[:80])
             continue
         out, minis = pr.value
         if len(minis) != 1:
@@ -245,7 +254,7 @@ def job_fit(job, pattern, filt, window):
             if not filt:
                 keep.append(j)
                 continue
-            if pattern[j] == "nan" or pattern[j] == "zero":
+            if pattern[j] in ("nan", "zero", "gasnan"):
                 continue
             if pattern[j] == "sure":
                 keep.append(j)
@@ -315,12 +324,12 @@ def concrete_eq(x, v):
 
 def jobs(tier):
     out = [("objective", job_objective)]
-    pats = [("ok", "ok", "ok"), ("ok", "zero", "ok", "ok"), ("ok", "nan", "ok", "ok")]
+    pats = [("ok", "ok", "ok"), ("ok", "zero", "ok", "ok"), ("ok", "nan", "ok", "ok"), ("ok", "gasnan", "ok", "ok")]
     if tier != "quick":
         pats += [("zero", "ok", "nan", "ok", "ok"), ("ok", "ok", "ok", "ok", "ok")]
     for p in pats:
         for filt in (True, False):
-            if not filt and "nan" in p:
+            if not filt and ("nan" in p or "gasnan" in p):
                 continue
             for w in (None, 1):
                 out.append((f"fit-{'-'.join(p)}-{filt}-{w}", lambda j, p=p, f=filt, w=w: job_fit(j, p, f, w)))
